@@ -30,6 +30,17 @@ N = {"quick": 500, "thorough": 6000}
 SHARDS = {"quick": 6, "thorough": 16}
 UNITS = [("m", "length"), ("cm", "length"), ("km", "depth"), ("ft", "depth"), ("s", "time"), ("min", "time"), ("degC", "temperature"), ("K", "temperature"), ("degF", "temperature"), ("kg", "mass"), ("g", "mass")]
 _SKEWED = None
+
+
+def _equal_up_to_nan(r, a):
+    """the same array when a NaN element (0/0 of an earlier step) stands against a NaN element: NaN is not equal to
+    itself, so == cannot say so"""
+    rv, av = [float(t) for t in r.GetValues()], [float(t) for t in a.GetValues()]
+    if not any(t != t for t in av):
+        return False
+    return r.GetQuantity() == a.GetQuantity() and r.dimension == a.dimension and len(rv) == len(av) and all((x == y) or (x != x and y != y) for x, y in zip(rv, av))
+
+
 KINDS = gen.CONTAINER_KINDS
 # FixedArrays also over an integer ndarray (a non-integral amount put at an index is still that amount)
 FA_KINDS = KINDS + ("ndarray_int",)
@@ -276,11 +287,11 @@ class FAMachine:
             self.ctx.cls("index_ops_under_another_current_database")
         elif kind == "pickle":
             r = self.attempt("pickle", lambda: pickle.loads(pickle.dumps(a, op[2] % (pickle.HIGHEST_PROTOCOL + 1))), True, d, [a])
-            if r is not None and not (r == a):
+            if r is not None and not (r == a) and not _equal_up_to_nan(r, a):
                 self.fail("pickle_not_equal", "pickle round trip of %r gave %r" % (a, r))
         elif kind == "copy":
             r = self.attempt("copy", (lambda: copy.copy(a)) if op[2] else (lambda: copy.deepcopy(a)), True, d, [a])
-            if r is not None and not (r == a):
+            if r is not None and not (r == a) and not _equal_up_to_nan(r, a):
                 self.fail("copy_not_equal", "copy of %r gave %r" % (a, r))
         elif kind == "changing_index":
             _, _, idx, vk, x, ui, use = op
